@@ -9,7 +9,7 @@ RULE = ("overlap graphs with 1..2e4 nodes (quick) / 1e6 (thorough): random spars
         "'late bridge' graphs (two already-consistent groups joined by one edge stored far away in the pair list, "
         "> 4096 pairs), duplicate edges, self-loops, no edges, node 0 isolated or connected; property tables of "
         "positive integers; omega/dty/scale-factor arrays (none, constant, per-frame); numba threads {1,2,4,16}; both "
-        "find_uniq routes (numba sweep and scipy); oracle = harness union-find / scipy connected components and "
+        "find_uniq routes (numba sweep and scipy); sub-check pipeline: 2-4 scan rows x 3-8 frames of 3x3 blobs written as a sparse file and a dataset file, sinograms.properties.main with 1-2 processes (rotation forwards, zig-zag, backwards, from -180, across 360; empty frames), labels and merged properties against a union-find over the written blobs; oracle = harness union-find / scipy connected components and "
         "numpy add.at sums; non-trivial = a component with >= 3 nodes whose labels need >= 2 sweeps (its smallest "
         "node is not adjacent to all members); distinct = hash of the case")
 ASSUMPTIONS = ["numba prange schedules are sampled through the thread count (1,2,4,16) and edge-order shuffles",
